@@ -248,7 +248,28 @@ func peerSession(rec *recorder, h *vhandler, sp *peerSpec, c net.Conn, rep *vsup
 		if cw, ok := c.(interface{ CloseWrite() error }); ok {
 			_ = cw.CloseWrite()
 		}
-		time.Sleep(150 * time.Millisecond)
+		// it does not read a byte until the engine has closed its end (POLLRDHUP needs no reading): an engine that
+		// waits for this peer to drain its answer before closing never gets there
+		hup := false
+		if sc, ok := c.(syscall.Conn); ok {
+			if rc, err := sc.SyscallConn(); err == nil {
+				deadline := time.Now().Add(12 * time.Second)
+				for !hup && time.Now().Before(deadline) {
+					_ = rc.Control(func(fd uintptr) {
+						pf := []unix.PollFd{{Fd: int32(fd), Events: unix.POLLRDHUP}}
+						if n, _ := unix.Poll(pf, 50); n > 0 && pf[0].Revents&(unix.POLLRDHUP|unix.POLLHUP|unix.POLLERR) != 0 {
+							hup = true
+						}
+					})
+				}
+			}
+		}
+		if hup {
+			rec.emit("PeerSawClose", "c", sp.id)
+		} else {
+			rec.emit("PeerNoClose", "c", sp.id)
+			rep.Violation("sys/close-stuck", fmt.Sprintf("connection %d: the peer half-closed while the answer was stuck behind a full socket and did not read; the engine had not closed its end 12 s later", sp.id), nil)
+		}
 	}
 	close(release)
 	// wait for the final frame if one is due, then end the connection as scripted
